@@ -304,9 +304,7 @@ Definition udp_ok (listeners : list Z) (t : list ev) : bool :=
 (* C18: fault isolation.  A fatal result of read/write on behalf of an open connection
    (end of stream, or any error other than EAGAIN) is recognised as such at once (ghost
    marker `fail`), after which that connection sees no further OnTraffic and its OnClose
-   carries an error.  (Exception, bracketed by the `openreply` markers: a failing write
-   of the OnOpen reply is reported to the reactor and the close is left to the poller's
-   error event.)  Transient results (EAGAIN) produce no marker and no callback.  The
+   carries an error.  Transient results (EAGAIN) produce no marker and no callback.  The
    isolation of the OTHER connections is the fact that inbound_ok / outbound_ok /
    lifecycle_ok / fd_ok hold for every input stream, fault results included. *)
 
@@ -341,8 +339,6 @@ Definition fault_step (s : faultst) (e : ev) : option faultst :=
                   (if ft_exempt s || zmem cid (ft_closed s) then ft_doomed s else cid :: ft_doomed s)
                   (ft_closed s) (ft_exempt s))
       else None                       (* a failure is only declared on a fatal result *)
-  | EOut ("g", [ASym "openreply"; AInt _; _]) => if ft_owed s then None else Some (mkF (ft_conn_call s) false (ft_doomed s) (ft_closed s) true)
-  | EOut ("g", [ASym "openreply-end"; AInt _; _]) => if ft_owed s then None else Some (mkF (ft_conn_call s) false (ft_doomed s) (ft_closed s) false)
   | EOut ("cb", [ASym "traffic"; AInt cid]) =>
       if ft_owed s || zmem cid (ft_doomed s) then None else Some s
   | EOut ("cb", [ASym "close"; AInt cid; ASym k]) =>
@@ -370,6 +366,107 @@ Definition statics (i : list line) : list Z :=
   | Some w => l_efd (st w) :: map fst (l_listeners (st w))
   end.
 
+(* ------------------------------------------------------------------ *)
+(* C02 progress: accepted output is never left without anybody going to send it.
+   Whenever the loop is between events (`g pending cid fd n` is emitted for every registered
+   connection at the top of each polling iteration) a connection with n > 0 bytes still buffered
+   has somebody responsible for them:
+   - level-triggered: its epoll registration asks for writability (the last successful
+     epoll_ctl ADD/MOD on its descriptor had the write flag), so the poller will call back;
+   - edge-triggered: the last write attempt on it ended in EAGAIN (the kernel owes an edge), or a
+     write task was queued for it since (`g rearm-write`).
+   Outside the property: ReadFrom not followed by Flush (`dirty`), and connections doomed by a
+   fatal result. *)
+
+Record progst := mkP {
+  p_et : bool;
+  p_want_w : list (Z * bool);      (* fd -> write interest of its registration *)
+  p_last : option (Z * Z * bool);  (* pending epoll_ctl: fd, op(0 add/1 mod/2 del), rw *)
+  p_owed : list Z;                 (* cids whose last write attempt said EAGAIN, or that have a write task queued *)
+  p_dirty : list Z;                (* ReadFrom without Flush *)
+  p_dead : list Z;                 (* doomed or closed *)
+}.
+
+Definition set_owed (s : progst) (o : list Z) : progst :=
+  mkP (p_et s) (p_want_w s) (p_last s) o (p_dirty s) (p_dead s).
+
+Definition prog_step (s : progst) (e : ev) : option progst :=
+  match e with
+  | EOut ("sys", [ASym "epctl"; ASym op; AInt fd; AInt rw; _]) =>
+      let o := if sym_eqb op "add" then 0 else if sym_eqb op "mod" then 1 else 2 in
+      Some (mkP (p_et s) (p_want_w s) (Some (fd, o, rw =? 1)) (p_owed s) (p_dirty s) (p_dead s))
+  | EIn ("r", ASym "epctl" :: AInt n :: _) =>
+      match p_last s with
+      | Some (fd, o, rw) =>
+          let ww := if n <? 0 then p_want_w s
+                    else if o =? 2 then aremove fd (p_want_w s) else aset fd rw (p_want_w s) in
+          Some (mkP (p_et s) ww None (p_owed s) (p_dirty s) (p_dead s))
+      | None => Some s
+      end
+  | EOut ("sys", [ASym "close"; AInt fd]) =>
+      Some (mkP (p_et s) (aremove fd (p_want_w s)) (p_last s) (p_owed s) (p_dirty s) (p_dead s))
+  | EOut ("g", [ASym "hand"; AInt cid; _]) => Some (set_owed s (zrem cid (p_owed s)))
+  | EOut ("g", [ASym "fail"; AInt cid; _]) =>
+      Some (mkP (p_et s) (p_want_w s) (p_last s) (p_owed s) (p_dirty s) (cid :: p_dead s))
+  | EOut ("g", [ASym "eagain"; AInt cid; _]) => Some (set_owed s (cid :: p_owed s))
+  | EOut ("g", [ASym "rearm-write"; AInt cid; _]) => Some (set_owed s (cid :: p_owed s))
+  | EOut ("cb", [ASym "close"; AInt cid; _]) =>
+      Some (mkP (p_et s) (p_want_w s) (p_last s) (p_owed s) (p_dirty s) (cid :: p_dead s))
+  | EOut ("hr", AInt cid :: ASym call :: vals) =>
+      if sym_eqb call "readfrom" then
+        Some (mkP (p_et s) (p_want_w s) (p_last s) (p_owed s) (cid :: p_dirty s) (p_dead s))
+      else if sym_eqb call "flush" then
+        match vals with
+        | [ASym r] => if sym_eqb r "nil"
+                      then Some (mkP (p_et s) (p_want_w s) (p_last s) (p_owed s) (zrem cid (p_dirty s)) (p_dead s))
+                      else Some s
+        | _ => Some s
+        end
+      else Some s
+  | EOut ("g", [ASym "pending"; AInt cid; AInt fd; AInt n]) =>
+      if (n <=? 0) || zmem cid (p_dead s) || zmem cid (p_dirty s) then Some s
+      else if p_et s then (if zmem cid (p_owed s) then Some s else None)
+      else (if getd false fd (p_want_w s) then Some s else None)
+  | _ => Some s
+  end.
+
+Definition out_progress_ok (et : bool) (t : list ev) : bool :=
+  check prog_step (mkP et [] None [] [] []) t.
+
+(* C01 progress (edge-triggered): a read that filled the buffer it was given may have left data in
+   the socket, and no new edge will announce it: the loop must read again, queue a read task
+   (`g rearm-read`), or be closing the connection, before it goes back to waiting. *)
+
+Record rdst := mkR {
+  r_cap : Z;                    (* size offered to the pending read *)
+  r_full : option Z;            (* cid whose last read filled its buffer and has not been followed up *)
+  r_cur : option Z;             (* cid of the delivery in progress *)
+}.
+
+Definition rd_step (s : rdst) (e : ev) : option rdst :=
+  match e with
+  | EOut ("sys", [ASym "read"; AInt fd; AInt cap]) => Some (mkR cap None (r_cur s))
+  | EIn ("r", ASym "read" :: AInt n :: _) =>
+      Some (mkR (if n =? r_cap s then 1 else 0) (r_full s) (r_cur s))
+  | EOut ("g", [ASym "del"; AInt cid; _]) =>
+      Some (mkR 0 (if r_cap s =? 1 then Some cid else None) (Some cid))
+  | EOut ("g", [ASym "rearm-read"; AInt cid; _]) => Some (mkR (r_cap s) None (r_cur s))
+  | EOut ("cb", [ASym "close"; AInt cid; _]) =>
+      match r_full s with
+      | Some c => if c =? cid then Some (mkR (r_cap s) None (r_cur s)) else Some s
+      | None => Some s
+      end
+  | EOut ("g", [ASym "count"; _; _]) =>
+      match r_full s with Some _ => None | None => Some s end
+  | _ => Some s
+  end.
+
+Definition in_progress_ok (et : bool) (t : list ev) : bool :=
+  if et then check rd_step (mkR 0 None None) t else true.
+
+Definition is_et (i : list line) : bool :=
+  match init_world i with Some w => l_et (st w) | None => false end.
+
 (* the run never ends for lack of fuel: the bound S (length input) suffices *)
 Definition is_fuel_desync (e : ev) : bool :=
   match e with EOut ("desync", [ASym s]) => sym_eqb s "fuel" | _ => false end.
@@ -391,5 +488,7 @@ Definition run_loop_chk : runner := fun i =>
        obs "chk" [ASym "udp"; bool_arg (udp_ok (statics i) t)];
        obs "chk" [ASym "fault"; bool_arg (fault_ok t)];
        obs "chk" [ASym "count"; bool_arg (count_ok t)];
-       obs "chk" [ASym "fuel"; bool_arg (fuel_ok t)]]
+       obs "chk" [ASym "fuel"; bool_arg (fuel_ok t)];
+       obs "chk" [ASym "outprogress"; bool_arg (out_progress_ok (is_et i) t)];
+       obs "chk" [ASym "inprogress"; bool_arg (in_progress_ok (is_et i) t)]]
   end.
